@@ -88,6 +88,20 @@ theorem run_inv (ops : List Op) : ∀ (s : State), Inv s → HistOk s.chainRev o
     obtain ⟨s2, h2, hi2, hc2, ht2⟩ := ih s1 hi1 hok2 ht1
     exact ⟨s2, by simp only [run, h1, h2], hi2, by rw [hc2, hc1]; rfl, ht2⟩
 
+theorem histOk_append (a b : List Op) : ∀ (c : List Block),
+    HistOk c (a ++ b) ↔ HistOk c a ∧ HistOk (a.foldl chainStep c) b := by
+  induction a with
+  | nil => intro c; simp [HistOk]
+  | cons op ops ih =>
+    intro c
+    simp only [List.cons_append, HistOk, List.foldl_cons, ih, and_assoc]
+
+theorem histOk_fetches (os : List OutPoint) : ∀ (c : List Block),
+    HistOk c (os.map Op.fetch) ∧ (os.map Op.fetch).foldl chainStep c = c := by
+  induction os with
+  | nil => intro c; exact ⟨trivial, rfl⟩
+  | cons o os ih => intro c; exact ⟨⟨trivial, (ih c).1⟩, (ih c).2⟩
+
 theorem journalOk_mid (j : Nat → Option (List Entry)) (xs : List Block) (b : Block) (rest : List Block)
     (h : JournalOk j (xs ++ b :: rest)) :
     j b.id = some (journalOf (utxoRev rest) (rest.length + 1) b) := by
